@@ -8,6 +8,7 @@ CONSTANTS
   Hi = 100
   Step = 1
   MaxRbf = 7
+  MaxPeer = 8
   MaxRatio = 3
 INVARIANTS RbfDump
 CHECK_DEADLOCK FALSE
